@@ -256,10 +256,10 @@ PROPS["C02"] = {
     "harnesses": [H("k02_total_%s" % k, timeout=1500, mem_gb=12, unwind=5,
                     unwindset=[BITITER_NEXT_REC, (r"BitIter::<.*>::read_(cmr|fail_entropy)$", "*", 66), (r"^(c01|hcons)::", "*", 72)])
                   for k in ("iden_unit", "fail", "witness", "hidden", "jet")]
-               + [H("k02_total_%s_k3" % k, timeout=2400, mem_gb=16, unwind=5,
+               + [H("k02_total_%s_k2" % k, timeout=2400, mem_gb=24, unwind=5,
                     unwindset=[BITITER_NEXT_REC, (r"BitIter::<.*>::read_(cmr|fail_entropy)$", "*", 66), (r"^(c01|hcons)::", "*", 72),
-                               (r"::read_natural::<", ("rank", 0), 6), (r"::read_natural::<", ("rank", 1), 6),
-                               (r"::read_natural::<", ("rank", 2), 17)])
+                               (r"::read_natural::<", ("rank", 0), 5), (r"::read_natural::<", ("rank", 1), 5),
+                               (r"::read_natural::<", ("rank", 2), 5)])
                   for k in ("unary", "disconnect1", "word")]
                + [H("k02_total_%s" % k, tiers=("thorough",), timeout=5400, mem_gb=24, core=False, unwind=5,
                     unwindset=[BITITER_NEXT_REC, (r"BitIter::<.*>::read_(cmr|fail_entropy)$", "*", 66), (r"^(c01|hcons)::", "*", 72),
